@@ -401,6 +401,8 @@ def failure_key(f, row, crystal=None):
         if f["clause"] == "substituted-representative-is-not-an-atom-of-the-set" and not f.get("offset_only_along_nonperiodic_axis"):
             return "wyckoff-parameters:2d:substituted-representative-off-in-plane"
         return "wyckoff-parameters:2d:%s" % f["clause"]
+    if f["clause"] == "has-free-parameters-flag":
+        return "wyckoff-parameters:has-free-parameters-flag"
     if f.get("letter"):
         return "wyckoff-parameters:%s:%s" % (sg, f["letter"])
     return "wyckoff-parameters:%s:%s" % (sg, f["clause"])
@@ -624,8 +626,11 @@ def run(ctx):
     n_doc = 24 if ctx.tier == "quick" else 160
     cands = [c for c in crystals if c["origin"] == "pair" and len(c["crystal"]["numbers"]) <= 64]
     ctx.rng.shuffle(cands)
+    cands.sort(key=lambda c: 0 if len(wyck[c["crystal"]["sg"]]["translations"]) > 0 else 1)    # centred groups first (two thirds)
+    cands = cands[:(2 * n_doc) // 3] + [c for c in cands[(2 * n_doc) // 3:] if len(wyck[c["crystal"]["sg"]]["translations"]) == 0]
     for c in cands[:n_doc]:
-        c["doctor"] = {"mode": ctx.rng.choice(["odd", "half"]), "target": c["crystal"]["target"][1]}
+        centred = len(wyck[c["crystal"]["sg"]]["translations"]) > 0
+        c["doctor"] = {"mode": "centring" if centred else ctx.rng.choice(["odd", "half"]), "target": c["crystal"]["target"][1]}
     t0 = time.time()
     rows = run_impl(crystals)
     t_impl = time.time() - t0
@@ -710,7 +715,8 @@ def run(ctx):
     for c in suspects:
         if n_rep >= 4:
             break
-        why = "implementation raised" if c["id"] not in bad_rows else "Coq cases failed: %s" % json.dumps(bad_rows[c["id"]][:3])
+        why = ("the property's predicate, evaluated in Python on the implementation's output, fails" if c["id"] not in bad_rows
+               else "Coq cases failed: %s" % json.dumps(bad_rows[c["id"]][:3]))
         res = report_crystal(ctx, c["crystal"], wyck, known, reported, why, tol=c.get("tol", TOL),
                              extra={"broken_obligation": broken, "origin": c["origin"]}, row=rows[c["id"]])
         if res == "violation":
